@@ -638,12 +638,14 @@ def check_C20(chk):
     if not prog or any(p not in ("fetch_add", "load", "store", "cas") for p in prog):
         raise ToolError("the counter program extracted from the code cannot be modelled: %s" % prog)
     chk.cov["program_extracted_from_code"] = prog
+    attempts = int(cal.get("max_attempts", 0))
+    chk.cov["cas_attempts_before_giving_up"] = attempts
     progdef = "ProgDef == <<%s>>" % ", ".join('"%s"' % p for p in prog)
-    configs = [("{1, 2, 3}", 2), ("{1, 2}", 3)] + ([("{1, 2, 3, 4}", 2), ("{1, 2, 3}", 3)] if chk.thorough else [])
+    configs = [("{1, 2, 3}", 2), ("{1, 2}", 3), ("{1, 2, 3, 4}", 2)] + ([("{1, 2, 3, 4}", 3), ("{1, 2, 3, 4, 5}", 2)] if chk.thorough else [])
     for threads, calls in configs:
         nthreads = threads.count(",") + 1
         res = vlib.run_tlc(chk.work, "MC_TempName_%d_%d" % (nthreads, calls), "TempName",
-                           "CONSTANTS\n Threads = %s\n Calls = %d\n Program <- ProgDef\nSPECIFICATION Spec\nINVARIANT Unique\nINVARIANT Sane\nCHECK_DEADLOCK FALSE\n" % (threads, calls),
+                           "CONSTANTS\n Threads = %s\n Calls = %d\n MaxAttempts = %d\n Program <- ProgDef\nSPECIFICATION Spec\nVIEW View\nINVARIANT Unique\nINVARIANT Sane\nCHECK_DEADLOCK FALSE\n" % (threads, calls, attempts),
                            defs=progdef, workers=16, timeout=1800)
         chk.add_tlc(res, "MC TempName: all interleavings of %d threads x %d calls of the extracted program %s" % (nthreads, calls, prog))
         if res.violation:
